@@ -104,15 +104,26 @@ def leaf_spec(env, T, P, path, regions, mode, needs):
     return exp
 
 
+def _safe(x):
+    from checks.walkers import safe_repr
+
+    return safe_repr(x)
+
+
 def cmp_error(e, cls_name, fields):
     """dict of sub-goals comparing a real exception object with the expected record"""
     g = {}
     g["class"] = type(e).__name__ == cls_name
     if cls_name == "ValueConstraintViolatedError":
         c = getattr(e, "constraint", None)
-        g["constraint_path"] = c is not None and c.constraint_path == fields["constraint_path"]
+        if "constraint_path" in fields:
+            g["constraint_path"] = c is not None and c.constraint_path == fields["constraint_path"]
         g["tpm_type"] = c is not None and c.tpm_type is fields["tpm_type"]
-        g["valid_values"] = c is not None and c.valid_values is fields["valid_values"]
+        vv = fields["valid_values"]
+        if isinstance(vv, tuple) and vv and vv[0] == "values":
+            g["valid_values"] = c is not None and type(c.valid_values).__name__ == "ValidValues" and tuple(c.valid_values._values) == tuple(vv[1])
+        else:
+            g["valid_values"] = c is not None and c.valid_values is vv
         g["value"] = sym_equal(S.SInt(typed_int(e.value)) if not isinstance(e.value, int) else e.value, S.SInt(fields["value"]))
     elif cls_name in ("SizeConstraintExceededError", "AnticipatedSizeConstraintExceededError", "SizeConstraintSubceededError"):
         g["constraint"] = getattr(e, "constraint", None) is fields["constraint"]
@@ -213,7 +224,7 @@ def unit_leaf(tname, states, mode):
             eo = exp["outcome"]
             if eo[0] == "return":
                 ok = outcome[0] == "return" and isinstance(outcome[1], tuple) and len(outcome[1]) == 2
-                g["outcome/returns"] = (ok, f"actual outcome {outcome!r}")
+                g["outcome/returns"] = (ok, f"actual outcome {_safe(outcome)}")
                 if ok:
                     g["outcome/size"] = sym_equal(outcome[1][0], eo[1])
                     g["outcome/value-class"] = type(outcome[1][1]) is T
@@ -221,7 +232,7 @@ def unit_leaf(tname, states, mode):
                         g["outcome/value"] = sym_equal(S.SInt(typed_int(outcome[1][1])), S.SInt(eo[2]))
             else:
                 ok = outcome[0] == "raise"
-                g["outcome/raises"] = (ok, f"actual outcome {outcome!r}")
+                g["outcome/raises"] = (ok, f"actual outcome {_safe(outcome)}")
                 if ok:
                     for k, v in cmp_error(outcome[1].exc, eo[1], eo[2]).items():
                         g[f"outcome/{k}"] = v
@@ -318,9 +329,9 @@ def unit_set_constraint(states, self_pos, mode):
             for k, v in cmp_trace(ctx.trace, exp["trace"]).items():
                 g[f"trace/{k}"] = v
             if exp["outcome"][0] == "return":
-                g["outcome/returns"] = (outcome[0] == "return", f"actual {outcome!r}")
+                g["outcome/returns"] = (outcome[0] == "return", f"actual {_safe(outcome)}")
             else:
-                g["outcome/raises"] = (outcome[0] == "raise", f"actual {outcome!r}")
+                g["outcome/raises"] = (outcome[0] == "raise", f"actual {_safe(outcome)}")
                 if outcome[0] == "raise":
                     for k, v in cmp_error(outcome[1].exc, exp["outcome"][1], exp["outcome"][2]).items():
                         g[f"outcome/{k}"] = v
@@ -380,9 +391,9 @@ def unit_assert_done(mode):
             for k, v in cmp_trace(ctx.trace, exp["trace"]).items():
                 g[f"trace/{k}"] = v
             if exp["outcome"][0] == "return":
-                g["outcome/returns"] = (outcome[0] == "return", f"actual {outcome!r}")
+                g["outcome/returns"] = (outcome[0] == "return", f"actual {_safe(outcome)}")
             else:
-                g["outcome/raises"] = (outcome[0] == "raise", f"actual {outcome!r}")
+                g["outcome/raises"] = (outcome[0] == "raise", f"actual {_safe(outcome)}")
                 if outcome[0] == "raise":
                     for k, v in cmp_error(outcome[1].exc, exp["outcome"][1], exp["outcome"][2]).items():
                         g[f"outcome/{k}"] = v
